@@ -244,9 +244,64 @@ def check_header(case, ex):
     return {'violations': out, 'stats': stats}
 
 
+def file_dtime_case(rng):
+    """DTIME values on their way into a file (attribute -> bytes), not through write_struct called directly: an origin's creation
+    time and a zone's limits, naive or aware, under a seeded process zone and a simulated 'now' in either DST season."""
+    from .. import genmeta
+    tz = gen.pick(rng, gen.TZS)
+    spec = gen.Spec(rng)
+    spec.new_file(mrl=8192)
+    lfi = spec.logical_file()
+    vals = [genmeta.dtime(rng, allow_str=rng.random() < 0.3) for _ in range(3)]
+    spec.origin(lfi, creation_time=vals[0])
+    c = spec.channel(lfi, 'C0', {'dtype': '<f8', 'shape': [2], 'kind': 'ramp', 'start': 1, 'step': 1})
+    spec.frame(lfi, 'F0', [c])
+    spec.add(lfi, 'zone', 'ZT', domain='TIME', maximum=vals[1], minimum=vals[2])
+    hist = [{'op': 'set_clock', 'now': rng.choice(['2021-01-20T10:00:00', '2021-07-20T10:00:00', '2021-03-14T06:59:59'])}] + list(spec.ops)
+    hist.append(gen.write_op(spec, path='dt.dlis'))
+    return {'scenario': {'env': {'tz': tz}, 'history': hist}, 'params': {'kind': 'file_dtime', 'vals': vals}}
+
+
+def check_file_dtime(case, ex):
+    tz = case['scenario']['env'].get('tz')
+    stats = C.new_stats(case)
+    out = []
+    sc, res = C.run(case, ex, [], stats)
+    st = C.last_write(res)
+    stats['nontrivial'] = tz not in (None, 'UTC')
+    if st is None or st.get('out') != 'ok' or st.get('file') is None:
+        C.bump(stats['probes'], 'file_dtime_write_failed')
+        return {'violations': out, 'stats': stats}
+    dec = rp66.decode_file(st['file'])
+    want = case['params']['vals']
+    got = []
+    try:
+        lf = dec.lfs[0]
+        o = [s for s in lf.sets if s.type == 'ORIGIN'][0].objects[0]
+        z = [s for s in lf.sets if s.type == 'ZONE'][0].objects[0]
+        got = [o.attrs['CREATION-TIME'], z.attrs['MAXIMUM'], z.attrs['MINIMUM']]
+    except Exception as e:
+        out.append(C.V('C06.undecodable', {'code': 'DTIME', 'route': 'file'}, err=repr(e), errors=[x.rule for x in dec.errors][:3]))
+        return {'violations': out, 'stats': stats}
+    for w, a, label in zip(want, got, ('CREATION-TIME', 'MAXIMUM', 'MINIMUM')):
+        C.bump(stats['probes'], 'code_DTIME_in_file')
+        naive = isinstance(w, str) or w.get('tz') is None
+        fp = {'code': 'DTIME', 'route': 'file', 'tz': 'utc' if tz in (None, 'UTC') else 'other',
+              'value_class': 'dtime_naive' if naive else 'dtime_aware'}
+        if a is None or a.code != 21 or not a.values or not isinstance(a.values[0], dict):
+            out.append(C.V('C06.decode_mismatch', dict(fp, why='not_a_dtime'), label=label, got=a.summary() if a else None))
+            continue
+        wi, gi = expect.instant_ms(w, tz), expect.decoded_instant_ms(a.values[0], tz)
+        if wi is None or abs(wi - gi) > 1.0:
+            out.append(C.V('C06.decode_mismatch', fp, label=label, value=w, decoded=a.values[0]))
+    return {'violations': out, 'stats': stats}
+
+
 def gen_case(rng, tier, avoid):
     if rng.random() < 0.1:
         return identity_case(rng)
+    if rng.random() < 0.03:
+        return file_dtime_case(rng)
     if rng.random() < 0.04:
         return header_case(rng)
     tz = gen.pick(rng, gen.TZS)
@@ -295,6 +350,8 @@ def check_case(case, ex):
         return check_identity(case, ex)
     if case.get('params', {}).get('kind') == 'header':
         return check_header(case, ex)
+    if case.get('params', {}).get('kind') == 'file_dtime':
+        return check_file_dtime(case, ex)
     hist = case['scenario']['history']
     tz = case['scenario']['env'].get('tz')
     stats = C.new_stats(case)
